@@ -8,11 +8,11 @@ BASE_OFF = "cd /repo && cargo test --workspace --no-fail-fast --offline"
 # id -> (technique, level text, level note, design ref)
 PBT = "property-based testing (proptest, seeded, shrinking)"
 CLAIMED = {
- "C01": (PBT + ": differential against a reference Push interpreter written from the documented semantics - single instructions on boundary states, generated programs in lock-step and under a sweep of step limits",
-         "Exploration: hundreds of thousands (quick) to millions (thorough) of generated single-instruction states and programs; every executed instruction and every sampled step limit compared with the reference model (all four stacks, output, outcome kind). Does not establish absence.",
+ "C01": (PBT + ": differential against a reference Push interpreter written from the documented semantics - single instructions on boundary states, generated programs in lock-step and under a sweep of step limits; machines are set up half of the time through the builder (with_*_values, with_*_max_size, inputs with short, long and nearly identical names) and half directly on the stacks",
+         "Exploration: hundreds of thousands (quick) to millions (thorough) of generated single-instruction states and programs; every executed instruction and every sampled step limit compared with the reference model (all four stacks, output, outcome kind); a stack-churn generator keeps stacks at their boundaries; flat blocks of up to hundreds of instructions and initial stacks near the maximum. Does not establish absence.",
          "Trusted: the reference model in harness/src/model/vm.rs (DESIGN Appendix A), std Display and `as` int->float. Double faults and Power with exponent > u32::MAX accept two outcomes.",
          "DESIGN.md §2 C01, Appendix A"),
- "C02": (PBT + ": model-free before/after state equality on every failing instruction, exhaustive enumeration of stack shapes per instruction, L vs L+1 step-limit metamorphic relation on the real interpreter loop",
+ "C02": (PBT + ": model-free before/after state equality on every failing instruction, exhaustive enumeration of stack shapes per instruction, L vs L+1 step-limit metamorphic relation on the real interpreter loop, failing steps inside generated and stack-churn programs compared step by step",
          "Exploration with an exhaustive component: for every instruction all 4096 stack shapes (sizes 0..3 x slack 0/1 per stack) are enumerated (values random), plus generated boundary states and programs. Does not establish absence for values.",
          "Trusted: PushState's Eq (all stacks, inputs, output cursor, limits) plus bitwise float comparison.",
          "DESIGN.md §2 C02"),
@@ -20,12 +20,12 @@ CLAIMED = {
          "Exploration: thousands (quick) to hundreds of thousands (thorough) of adversarial programs, up to 20000 steps each, nests up to depth 200/2000. A hang is reported as inconclusive (exit 2), never as a violation.",
          "Trusted: reference model; nests deeper than the stated bound are out of scope.",
          "DESIGN.md §2 C03"),
- "C04": (PBT + ": generated operation histories in lock-step against a Vec+capacity reference model (bulk insertion from exact-size iterators, iterators without a size hint and iterators with valid but imprecise hints)",
+ "C04": (PBT + ": generated operation histories in lock-step against a Vec+capacity reference model (bulk insertion from exact-size iterators, iterators without a size hint and iterators with valid but imprecise hints, every bulk count up to 71, maxima incl. 33 / 64 / 100 / usize::MAX-1), the same histories over a zero-sized element type",
          "Exploration: tens of thousands (quick) to millions (thorough) of generated stack histories, every operation compared against a reference model; failures shrunk to a minimal history. Does not establish absence.",
          "Trusted: proptest, the harness's Vec-based model, rustc. Zero-element insertion above a lowered maximum and is_full above the maximum are deliberately unconstrained.",
          "DESIGN.md §2 C04"),
  "C05": (PBT + ": exhaustive small-scope enumeration of gene-class sequences plus random genomes; structural predicates on the real output and equality with an independent iterative reference parser",
-         "Exploration with an exhaustive component: all 4^n gene-class sequences for n <= 8 (quick) / 10 (thorough) are enumerated completely; random genomes up to 2000 genes beyond that.",
+         "Exploration with an exhaustive component: all 4^n gene-class sequences for n <= 8 (quick) / 10 (thorough) are enumerated completely; random genomes up to 2000 genes beyond that, incl. deep nests that close completely and reopen and genes that are themselves exec literals (blocks as literals).",
          "Trusted: the reference parser in harness/src/gen_vm.rs; opening counts (IfElse 2, When/Unless/DupBlock 1) are taken from the property statement, not from the crate.",
          "DESIGN.md §2 C05"),
  "C10": (PBT + ": tagged parents through all crossover impls with a generated random stream, generated misuse of the exchange primitives, seeded coverage of all two-point segments (len <= 6) and of the segment classes for len 33..257, exact 2^-len law of uniform-crossover source patterns plus per-position rates and lag-agreement statistics on parents of 70..520 genes (Chernoff bound, alpha 1e-12, confirmation stage)",
@@ -41,19 +41,19 @@ CLAIMED = {
          "Trusted: rand 0.9 StdRng / Bernoulli; independence of the trials counted together (only disjoint gene pairs are pooled). Not detectable: < vs <=, f32 rounding of a rate, deviations below the stated resolution.",
          "DESIGN.md §1 Statistical method, §2 C12"),
  "C06": (PBT + ": generated populations x generated selector composition trees (real WeightedPair / DynWeighted / reference / erased nodes) with a generated random stream; pointer-identity membership oracle and a small model of which documented errors a configuration justifies",
-         "Exploration: hundreds of thousands (quick) to millions (thorough) of (population, selector tree, random stream) cases with 1-3 draws each, a quarter of them alternating one selector value between two populations; DynWeighted lists also in a form that was used for a selection while still being built.",
+         "Exploration: hundreds of thousands (quick) to millions (thorough) of (population, selector tree, random stream) cases with 1-3 draws each, a quarter of them alternating one selector value between two populations (of different sizes, up to 90 members); DynWeighted lists also in a form that was used for a selection (also on an empty population) while still being built; random streams contain extreme words (0, MAX, powers of two).",
          "Trusted: the harness's delegating enums (combinator nodes are the real types) and its model of justified errors; Ok(member) is also accepted when lexicase is configured with more cases than results.",
          "DESIGN.md §2 C06"),
  "C07": (PBT + " for per-draw invariants (sample recovered from logged comparisons) plus seeded statistical tests of the k-subset uniformity law and the enumerated winner law (Chernoff/KL, alpha 1e-12, confirmation stage)",
-         "Exploration: hundreds of thousands of generated (population, k, stream) cases; for every n <= 7, k <= n the full subset and winner laws against 1e6 (quick) / 1e7 (thorough) seeded draws; for 14 larger configurations (n up to 300, k up to 40) the inclusion, pair co-inclusion and pooled winner-rank laws; the named constructors.",
+         "Exploration: hundreds of thousands of generated (population, k, stream) cases; for every n <= 7, k <= n the full subset and winner laws against 1e6 (quick) / 1e7 (thorough) seeded draws; for 14 larger configurations (n up to 300, k up to 40) and populations of 70000 / 2^20+3 members the inclusion, pair co-inclusion and pooled winner-rank laws; one selector value alternating between populations of other sizes; agreement of successive winners; the named constructors.",
          "Trusted: rand StdRng; the sampled subset is observed through the individuals' Ord::cmp, so an implementation comparing more than k individuals is judged by the winner law only.",
          "DESIGN.md §2 C07"),
  "C08": ("seeded statistical property testing against the exact lexicase law obtained by enumerating all case orders with an independent definition of 'better'; per-draw exact support check (winner has positive probability, never Pareto-dominated)",
-         "Exploration: 400 (quick) / 8000 (thorough) generated result matrices (up to 8 x 5) plus 12 / 120 larger ones (up to 100 x 8) in both polarities x 4e5 / 2e6 seeded draws each; two fifths of them with fewer configured cases than results, a quarter with grouped per-case results (TestResults as the per-case type, ordered by total).",
+         "Exploration: 400 (quick) / 8000 (thorough) generated result matrices (up to 8 x 5) plus 12 / 120 larger ones (up to 100 x 8) in both polarities x 4e5 / 2e6 seeded draws each; two fifths of them with fewer configured cases than results, a quarter with grouped per-case results (TestResults as the per-case type, ordered by total); matrices with up to 40 cases against an analytic law (specialists); agreement of successive selections.",
          "Trusted: the harness's enumerator. For a configured count below the number of results every reading of 'the considered cases' (any fixed subset of that size, or a random one) is accepted.",
          "DESIGN.md §2 C08"),
  "C13": (PBT + " for per-selection invariants through marker members (exactly one member used, never weight 0, construction rejected iff a partial sum overflows) plus seeded statistical tests of member frequencies = w_i / sum(w) over all binary tree shapes up to 5 leaves, real chains and dynamic lists (up to 300 members, also lists used for selections while they are still being extended)",
-         "Exploration: hundreds of thousands of generated weighted shapes and ~200 law configurations x 4e5 (quick) / 5e6 (thorough) draws.",
+         "Exploration: hundreds of thousands of generated weighted shapes (incl. selection from an empty population: the chosen member's own error, never a weight-0 member's) and ~200 law configurations x 4e5 (quick) / 5e6 (thorough) draws; agreement of successive selections.",
          "Trusted: rand Bernoulli / choose_weighted; the payload of WeightSumOverflow is not compared.",
          "DESIGN.md §2 C13"),
  "C09": (PBT + ": generated (population kind Vec / VecDeque / BTreeSet / HashSet, population size, rounds, serial/parallel, rayon pool size, failure positions, delay script) histories with an instrumented child maker; invariants over the history (atomic replacement, all-or-nothing on failure, every call saw the old population, pairwise distinct random words)",
@@ -61,27 +61,27 @@ CLAIMED = {
          "Trusted: rayon; the thread generator's words are treated as pairwise distinct when children have live randomness (64-bit collisions are negligible).",
          "DESIGN.md §2 C09"),
  "C14": (PBT + ": generated composition trees of the real combinators around logging probe operators, differential against a reference interpreter of the tree (call order, inputs, words drawn at each stream offset, stop at first failure, failing part recovered from the error); wrapper operators against the wrapped parts run by hand from equal generator states; statically typed compositions whose source() and diagnostic_source() chains must show the same levels down to the failing probe",
-         "Exploration: hundreds of thousands (quick) to millions (thorough) of generated compositions (depth <= 6) and wrapper pipelines.",
+         "Exploration: hundreds of thousands (quick) to millions (thorough) of generated compositions (depth <= 6) and wrapper pipelines, values up to 150000-element vectors and 4 KiB outputs, zero-sized outputs; ten kinds of statically typed chains (tuples, arrays, Then, And, Map, Repeat, references, wide and unit payloads).",
          "Trusted: the reference interpreter; the failing part is read from Debug/Display text of the crate's error types (fields private) and reported unobservable if that text changes.",
          "DESIGN.md §2 C14"),
  "C15": (PBT + ": order laws and operator agreement on exhaustive extreme triples and generated values, result vectors (built through 12 kinds of source iterator, incl. imprecise size hints) vs independently computed totals (i64 exactly; f64 exactly for exactly summable values and within the rounding bound otherwise; i32, u64), individuals vs their results, generator/scorer provenance with a recording scorer",
-         "Exploration with an exhaustive component: all 343 triples over the 7 extreme i64 values; hundreds of thousands (quick) to millions (thorough) of generated cases.",
+         "Exploration with an exhaustive component: all 343 triples over the 7 extreme i64 values; hundreds of thousands (quick) to millions (thorough) of generated cases; result counts at powers of two and block sizes; result types beyond i64/f64 (i32, u64, u8, i128 where the crate provides them) and partially ordered results inside individuals.",
          "Trusted: i128 reference sums; TestResults == is not required to agree with cmp.",
          "DESIGN.md §2 C15"),
  "C16": (PBT + ": call histories over a registry of operators, each call run twice from cloned instrumented generators (results, words consumed, next word, sequence of generator entry points used), repeats within a history, a third run on another thread; Push programs run twice and with permuted input declaration order",
-         "Exploration: 150000 + 60000 (quick) to millions (thorough) of generated histories / programs; absence of hidden inputs can only be refuted by sampling.",
+         "Exploration: 150000 + 60000 (quick) to millions (thorough) of generated histories / programs, a tenth of the calls with large arguments (populations up to 300, ragged many-case lexicase, genomes of hundreds of genes); absence of hidden inputs can only be refuted by sampling.",
          "Trusted: the word-counting generator wrapper around StdRng.",
          "DESIGN.md §2 C16"),
  "C17": ("generated compile probe (one erased flavour per line, cargo check JSON diagnostics) deciding existence of all 280 flavours, then " + PBT + ": concrete value vs every erased flavour from cloned instrumented generators (result identity, error text and downcast, words consumed, next word, sequence of next_u32 / next_u64 / fill_bytes(len) calls), with probe implementations that draw through every generator entry point",
-         "Exploration: all 280 (trait, pointer, auto-trait, error type) flavours are type-checked and each is exercised on thousands of generated cases.",
+         "Exploration: all 280 (trait, pointer, auto-trait, error type) flavours are type-checked and each is exercised on thousands of generated cases; probes draw in 20 styles (every entry point, mixed widths, fill_bytes of odd lengths), selectors that draw, and erased calls nested inside erased calls with a forked generator.",
          "Trusted: rustc diagnostics codes (E0277/E0599/E0271 = missing impl); the companion crate harness-dyn.",
          "DESIGN.md §2 C17"),
  "C18": (PBT + " for sizes and membership (counting / tagging element generator, all 14 conversion flavours + macro, pointer identity) plus seeded statistical tests of member frequencies = multiplicity / length",
-         "Exploration: sizes 0..300 (2000 thorough) plus boundary sizes to 5000 and 100000 once; 15 choice flavours x lengths 1..200 x 1e6 (quick) / 1e7 (thorough) draws, the Vec / slice flavours built once over 255..65537 members, and member counts up to 2^33+1 with zero-sized members.",
+         "Exploration: sizes 0..300 (2000 thorough) plus boundary sizes to 5000 and 100000 once; 15 choice flavours x lengths 1..200 x 1e6 (quick) / 1e7 (thorough) draws, the Vec / slice flavours built once over 255..65537 members, sources of 25 and 33 million members, and member counts up to 2^33+1 with zero-sized members; agreement of successive samples.",
          "Trusted: rand Uniform / Choose (the law is about how the crate uses them).",
          "DESIGN.md §2 C18"),
  "C19": ("seeded source generation + generated compile probes and a generated test program: builder call chains are produced from a model of the type-state automaton; must-compile / must-not-compile expectations are decided per line from cargo check JSON diagnostics, legal chains are executed and compared with the model's predicted state",
-         "Exploration: 6 (quick) / 30 (thorough) generated state structs in two variants plus PushState, 260 / 2500 classified call chains, 280+ / 4600+ executed legal chains per run; different seeds generate different structs and chains.",
+         "Exploration: 6 (quick) / 30 (thorough) generated state structs in two variants plus PushState, 260 / 2500 classified call chains, 280+ / 4600+ executed legal chains per run; different seeds generate different structs and chains; the stack type is spelled by short, crate-qualified and absolute paths; value lists are also given as lazy iterators of 2^40 elements over tiny maxima (must be rejected or truncated without being drained).",
          "Trusted: rustc diagnostics, the harness's automaton model; chains the statement does not decide are generated but not judged; failing chains are reported as generated (no shrinking - one chain is the unit).",
          "DESIGN.md §2 C19"),
 }
